@@ -258,7 +258,7 @@ def run():
         raise MachineryError('reference digests not usable: %s' % ref)
     ctx.leg('A', invariants=invs + ['RestoredOnExit'], action_coverage=cov, idle_states=len(behs), maximal_histories=len(paths))
     idx = list(enumerate(paths))
-    jobs = [(idx[i:i + 64], states, ctx.work, ref, 0) for i in range(0, len(idx), 64)]
+    jobs = [(idx[i:i + 64], core.states_for(states, [h for _, h in idx[i:i + 64]]), ctx.work, ref, 0) for i in range(0, len(idx), 64)]
     nbad = 0
     for part in core.pmap(_replay_job, jobs):
         for j, diff in part:
